@@ -105,6 +105,9 @@ func (e *env) typedOpts(o map[string]string) api.PinOptions {
 		po.Origins = []ma.Multiaddr{e.origins["o1"], e.origins["o2"]}
 	case "onlyp2p":
 		po.Origins = []ma.Multiaddr{e.origins["o3"]}
+	case "nopeer":
+		a, _ := ma.NewMultiaddr("/ip4/1.2.3.4/tcp/4001")
+		po.Origins = []ma.Multiaddr{a}
 	}
 	return po
 }
@@ -276,6 +279,9 @@ func (e *env) runClient(r *reqT, raw json.RawMessage) (*recT, error) {
 	obs := obsT{Ops: e.project(calls, t0, t1x, root), RetErr: cerr != nil}
 	if cerr != nil {
 		obs.ErrText = cerr.Error()
+		if ae, ok := cerr.(*api.Error); ok {
+			obs.ErrCode = ae.Code
+		}
 	} else if !noret {
 		obs.Ret = norm(ret)
 		obs.Answered = norm(relayed(answered))
@@ -329,8 +335,11 @@ func (e *env) clientAdd(ctx context.Context, c client.Client, r *reqT) (string, 
 			params.RawLeaves = true
 		}
 	}
-	if a["chunker"] == "size1024" {
+	switch a["chunker"] {
+	case "size1024":
 		params.Chunker = "size-1024"
+	case "bogus":
+		params.Chunker = "bogus-chunker"
 	}
 	out := make(chan *api.AddedOutput, 16)
 	root := "-"
